@@ -131,6 +131,9 @@ func ParsePrepareStatementResponse(data []byte) (*PrepareStatementResponse, erro
 	return resp, nil
 }
 
+// fixedLengthFieldsSize is size of the part of ColumnDefinition41 that follows length encoded strings
+const fixedLengthFieldsSize = 13
+
 // ParseResultField parses binary field and returns ColumnDescription
 func ParseResultField(packet *Packet, mariaDBExtendedTypeInfo bool) (*ColumnDescription, error) {
 	field := &ColumnDescription{}
@@ -190,6 +193,9 @@ func ParseResultField(packet *Packet, mariaDBExtendedTypeInfo bool) (*ColumnDesc
 	//       int<1> data type: 0x00:type, 0x01: format
 	//       string<lenenc> value
 	if mariaDBExtendedTypeInfo {
+		if pos >= len(packet.data) {
+			return nil, base.ErrMalformPacket
+		}
 		if packet.data[pos] == 0 {
 			// skip length byte
 			pos++
@@ -198,11 +204,20 @@ func ParseResultField(packet *Packet, mariaDBExtendedTypeInfo bool) (*ColumnDesc
 			if err != nil {
 				return nil, err
 			}
+			// extended info with its length byte should fit into the rest of packet
+			if num >= uint64(len(packet.data)-pos) {
+				return nil, base.ErrMalformPacket
+			}
 			// currently we dont need to take a look on extended info, so just grab it as is
 			offset := int(num + 1)
 			field.ExtendedTypeInfo = packet.data[pos : pos+offset]
 			pos += offset
 		}
+	}
+
+	// fixed length fields: 0x0C + charset[2] + column length[4] + type[1] + flags[2] + decimals[1] + filler[2]
+	if len(packet.data)-pos < fixedLengthFieldsSize {
+		return nil, base.ErrMalformPacket
 	}
 
 	//skip 0x0C constant field
@@ -246,7 +261,7 @@ func ParseResultField(packet *Packet, mariaDBExtendedTypeInfo bool) (*ColumnDesc
 		}
 		pos += n
 
-		if pos+int(field.DefaultValueLength) > len(packet.data) {
+		if field.DefaultValueLength > uint64(len(packet.data)-pos) {
 			log.WithField(logging.FieldKeyEventCode, logging.EventCodeErrorProtocolProcessing).Errorln("Incorrect position, malformed packet")
 			err = base.ErrMalformPacket
 			return nil, err
